@@ -223,7 +223,11 @@ let handle = function
         | _, Inr pops ->
           let ipops = List.map (fun o -> { ip_op = o.p_op; ip_path = o.p_path; ip_from = o.p_from;
                                            ip_val = (match o.p_val with Some v -> Some (inode_of v) | None -> None) }) pops in
-          let (_, (r, t)) = i_apply_ops lib_reparent fo (z_of_int 2000000) idoc ipops in
+          let (_, (r, t0)) = i_apply_ops lib_reparent fo (z_of_int 2000000) idoc ipops in
+          (* the harness walks the children of containers only (a scalar root may keep children after add_create) *)
+          let rec prune (INode (i, p, kl, k, ty, vi, vs, ch)) =
+            INode (i, p, kl, k, ty, vi, vs, (match ty with TObj | TArr -> List.map prune ch | _ -> [])) in
+          let t = prune t0 in
           let ids = i_ids t in
           let cls z = let i = int_of_z z in
             if i < 1000000 then Printf.sprintf "d%d" i else if i < 2000000 then Printf.sprintf "p%d" (i - 1000000) else "n" in
